@@ -1,6 +1,333 @@
 package drv
 
-// relayFaults is the C07 driver (fault injection around healthy traffic); see c07 in props.py.
+import (
+	"bytes"
+	"fmt"
+	"io"
+	"net"
+	"net/http"
+	"strings"
+	"sync"
+	"time"
+
+	"verifharness/hx"
+)
+
+// victimKind returns the fault marker of a token path (/t/.../v<kind>), or "".
+func victimKind(path string) string {
+	for _, seg := range strings.Split(path, "/") {
+		if strings.HasPrefix(seg, "v") && len(seg) > 1 {
+			return seg[1:]
+		}
+	}
+	return ""
+}
+
+// backendMisbehave implements the scripted backend faults for marked requests.
+func backendMisbehave(w http.ResponseWriter, r *http.Request, tok string) bool {
+	kind := victimKind(r.URL.Path)
+	if !strings.HasPrefix(kind, "be-") {
+		return false
+	}
+	hj, ok := w.(http.Hijacker)
+	if !ok {
+		return false
+	}
+	conn, _, err := hj.Hijack()
+	if err != nil {
+		return false
+	}
+	defer conn.Close()
+	hx.Emit("BackendFault", "tok", tok, "kind", kind)
+	switch kind {
+	case "be-close":
+		// close before sending anything
+	case "be-garbage":
+		conn.Write([]byte("\x00\x01garbage that is not HTTP\r\n\r\n"))
+	case "be-reset":
+		conn.Write([]byte("HTTP/1.1 200 OK\r\nContent-Length: 100000\r\nX-Token: " + tok + "\r\nX-Token-Multi: " + tok + "\r\nX-Token-Multi: " + tok + "+2\r\n\r\npartial body"))
+		if tc, ok := conn.(*net.TCPConn); ok {
+			tc.SetLinger(0)
+		}
+	case "be-short":
+		conn.Write([]byte("HTTP/1.1 200 OK\r\nTransfer-Encoding: chunked\r\nX-Token: " + tok + "\r\nX-Token-Multi: " + tok + "\r\nX-Token-Multi: " + tok + "+2\r\n\r\n5\r\nhello\r\nZZZ\r\n"))
+	}
+	return true
+}
+
+// chaosShim sits between the agent and the real proxy and injects a fault into the calls that
+// belong to marked requests.
+type chaosShim struct {
+	ln      net.Listener
+	srv     *http.Server
+	target  string
+	mu      sync.Mutex
+	pathOf  map[string]string
+	fetched map[string]*fetchReply
+	faulted map[string]int
+	listN   int
+}
+
+func newChaosShim(target string) *chaosShim {
+	c := &chaosShim{target: target, pathOf: map[string]string{}, fetched: map[string]*fetchReply{}, faulted: map[string]int{}}
+	c.ln = listen()
+	c.srv = &http.Server{Handler: http.HandlerFunc(c.serve)}
+	go c.srv.Serve(c.ln)
+	return c
+}
+
+func (c *chaosShim) url() string { return "http://" + c.ln.Addr().String() + "/" }
+func (c *chaosShim) close()      { c.srv.Close() }
+
+var chaosClient = &http.Client{Transport: &http.Transport{MaxIdleConnsPerHost: 64}, Timeout: 70 * time.Second}
+
+func (c *chaosShim) forward(w http.ResponseWriter, r *http.Request, body io.Reader) {
+	req, _ := http.NewRequestWithContext(r.Context(), r.Method, "http://"+c.target+r.URL.Path, body)
+	req.Header = r.Header.Clone()
+	resp, err := chaosClient.Do(req)
+	if err != nil {
+		http.Error(w, "chaos shim: "+err.Error(), 502)
+		return
+	}
+	defer resp.Body.Close()
+	for k, v := range resp.Header {
+		w.Header()[k] = v
+	}
+	w.WriteHeader(resp.StatusCode)
+	io.Copy(w, resp.Body)
+}
+
+func (c *chaosShim) serve(w http.ResponseWriter, r *http.Request) {
+	id := r.Header.Get("X-Inverting-Proxy-Request-ID")
+	switch {
+	case id == "":
+		c.mu.Lock()
+		c.listN++
+		n := c.listN
+		c.mu.Unlock()
+		if n%5 == 3 {
+			// a failing list call that loses no IDs: the agent must back off and list again
+			hx.Emit("ListFault", "n", n)
+			http.Error(w, "chaos: list failure", 503)
+			return
+		}
+		c.forward(w, r, nil)
+	case r.Method == http.MethodPost:
+		c.mu.Lock()
+		path := c.pathOf[id]
+		c.mu.Unlock()
+		switch victimKind(path) {
+		case "post-reject":
+			io.Copy(io.Discard, r.Body) // the response was produced: the backend answered
+			c.mu.Lock()
+			c.faulted[id]++
+			first := c.faulted[id] == 1
+			c.mu.Unlock()
+			if first {
+				hx.Emit("PostFault", "id", id)
+			}
+			http.Error(w, "chaos: upload rejected", 500)
+		case "post-garble":
+			b, _ := io.ReadAll(r.Body)
+			b = append([]byte("NOT-HTTP "), b...)
+			c.forward(w, r, bytes.NewReader(b))
+			hx.Emit("PostFault", "id", id)
+		case "post-reset":
+			buf := make([]byte, 10)
+			io.ReadFull(r.Body, buf)
+			if hj, ok := w.(http.Hijacker); ok {
+				if conn, _, err := hj.Hijack(); err == nil {
+					if tc, ok := conn.(*net.TCPConn); ok {
+						tc.SetLinger(0)
+					}
+					conn.Close()
+					return
+				}
+			}
+			http.Error(w, "chaos", 500)
+		default:
+			c.forward(w, r, r.Body)
+		}
+	default:
+		// fetch: the shim fetches from the real proxy on the agent's behalf exactly once per ID
+		// (so it learns the token), then either hands the reply on or injects the fault.
+		c.mu.Lock()
+		cached, seen := c.fetched[id]
+		c.mu.Unlock()
+		if !seen {
+			req, _ := http.NewRequest("GET", "http://"+c.target+r.URL.Path, nil)
+			req.Header = r.Header.Clone()
+			resp, err := chaosClient.Do(req)
+			if err != nil {
+				http.Error(w, "chaos shim: "+err.Error(), 502)
+				return
+			}
+			b, _ := io.ReadAll(resp.Body)
+			resp.Body.Close()
+			cached = &fetchReply{status: resp.StatusCode, header: resp.Header, body: b}
+			line := strings.SplitN(string(b), "\r\n", 2)[0]
+			if f := strings.Fields(line); len(f) >= 2 {
+				cached.path = f[1]
+			}
+			c.mu.Lock()
+			c.fetched[id] = cached
+			c.pathOf[id] = cached.path
+			c.mu.Unlock()
+			if strings.HasPrefix(victimKind(cached.path), "fetch-") {
+				hx.Emit("FetchFault", "id", id)
+			}
+		}
+		switch victimKind(cached.path) {
+		case "fetch-500":
+			http.Error(w, "chaos: fetch failure", 500)
+		case "fetch-404":
+			http.Error(w, "chaos: not found", 404)
+		case "fetch-garbled":
+			w.Header().Set("X-Inverting-Proxy-Request-Start-Time", time.Now().Format(time.RFC3339Nano))
+			w.WriteHeader(200)
+			w.Write([]byte("\x00\x00 this is not an HTTP request\r\n\r\n"))
+		default:
+			for k, v := range cached.header {
+				w.Header()[k] = v
+			}
+			w.WriteHeader(cached.status)
+			w.Write(cached.body)
+		}
+	}
+}
+
+type fetchReply struct {
+	status int
+	header http.Header
+	body   []byte
+	path   string
+}
+
+// relayFaults: C07. Healthy concurrent traffic around one faulty request per scenario; the
+// oracle (RelayTrace) is that every client not hit by the fault gets its own OK response, the
+// victim of an unreachable backend gets a 502, and the agent process survives.
 func relayFaults(a *Args) {
-	a.Res.Bad("faults mode not built yet")
+	res := a.Res
+	rng := hx.Rand("relay-faults")
+	kinds := []string{"be-close", "be-garbage", "be-reset", "be-short", "fetch-500", "fetch-404", "fetch-garbled",
+		"post-reject", "post-garble", "post-reset", "shim-input", "backend-down"}
+	positions := []int{2}
+	if hx.Thorough() {
+		positions = []int{0, 3, 7, 9}
+	}
+	n := 0
+	for _, kind := range kinds {
+		for _, pos := range positions {
+			seg := fmt.Sprintf("fault-%s-pos%d", kind, pos)
+			hx.Reset(seg, "relay-fault-"+kind)
+			var agentArgs []string
+			if kind == "shim-input" {
+				agentArgs = []string{"--shim-websockets", "--shim-path=shimx"}
+			}
+			e := &relayEnv{md: hx.StartMetadata(), backend: newEchoBackend()}
+			e.backend.misbehave = backendMisbehave
+			var err error
+			e.proxy, e.port, err = hx.StartProxy(hx.Bin("proxy"), nil)
+			if err != nil {
+				res.Bad("cannot start proxy: %v", err)
+				e.stop()
+				return
+			}
+			shim := newChaosShim(e.proxyAddr())
+			backendHost := e.backend.addr()
+			if kind == "backend-down" {
+				backendHost = fmt.Sprintf("127.0.0.1:%d", hx.FreePort())
+			}
+			e.agent, err = hx.StartAgent(hx.Bin("agent"), e.md, shim.url(), backendHost, "agent", agentArgs, nil)
+			if err != nil {
+				res.Bad("cannot start agent: %v", err)
+				shim.close()
+				e.stop()
+				return
+			}
+			total := 10
+			var wg sync.WaitGroup
+			run := func(path string, victim bool, timeout time.Duration) {
+				defer wg.Done()
+				if victim {
+					hx.Emit("Fault", "r", path, "kind", kind)
+				}
+				k, t := relayClient(e.proxyAddr(), path, timeout)
+				if k == "none" {
+					hx.Emit("ClientGaveUp", "r", path)
+					return
+				}
+				hx.Emit("ClientRecv", "r", path, "kind", k, "tok", t)
+			}
+			if kind == "backend-down" {
+				// every request is a victim of the unreachable backend and must get a 502
+				for c := 0; c < 6; c++ {
+					n++
+					wg.Add(1)
+					go run(relayPath(rng, n, []int{0, 100})+"/vbackend-down", true, 20*time.Second)
+				}
+				wg.Wait()
+			} else {
+				// warm-up probe, then a burst with the victim at position pos, then a probe afterwards
+				n++
+				wg.Add(1)
+				run(relayPath(rng, n, []int{10}), false, 30*time.Second)
+				for c := 0; c < total; c++ {
+					n++
+					if c == pos {
+						wg.Add(1)
+						if kind == "shim-input" {
+							go shimInputVictims(e.proxyAddr(), &wg, n)
+						} else {
+							go run(relayPath(rng, n, []int{100, 5000})+"/v"+kind, true, 4*time.Second)
+						}
+						continue
+					}
+					wg.Add(1)
+					go run(relayPath(rng, n, []int{0, 1, 100, 5000, 70000}), false, 30*time.Second)
+					if c%3 == 0 {
+						time.Sleep(time.Millisecond)
+					}
+				}
+				wg.Wait()
+				n++
+				wg.Add(1)
+				run(relayPath(rng, n, []int{10}), false, 30*time.Second)
+			}
+			e.finalEvent(res)
+			res.Case("fault:"+kind+fmt.Sprintf(":pos%d", pos), map[string]interface{}{"kind": kind, "position": pos, "healthy_concurrent": total - 1})
+			shim.close()
+			e.stop()
+		}
+	}
+}
+
+// shimInputVictims sends malformed calls to the websocket-shim endpoints through the proxy. Each
+// call is a client request of its own (token = request URI, made unique by a query string).
+func shimInputVictims(proxyAddr string, wg *sync.WaitGroup, n int) {
+	defer wg.Done()
+	bodies := []struct{ ep, body string }{
+		{"open", "::::not a url"}, {"data", "not json"}, {"data", `[{"id":"nope","msg":"x"}]`},
+		{"poll", `{"id":"zzz"}`}, {"close", `{"id":"zzz"}`}, {"data", `[{"id":"1","msg":{"a":1}}]`}, {"poll", `[1,2`},
+	}
+	for i, b := range bodies {
+		p := fmt.Sprintf("/shimx/%s?u=%d-%d", b.ep, n, i)
+		hx.Emit("Fault", "r", p, "kind", "shim-input")
+		req, _ := http.NewRequest("POST", "http://"+proxyAddr+p, strings.NewReader(b.body))
+		tr := &http.Transport{DisableKeepAlives: true}
+		cl := &http.Client{Transport: tr, Timeout: 10 * time.Second}
+		hx.Emit("ClientSend", "r", p)
+		resp, err := cl.Do(req)
+		if err != nil {
+			hx.Emit("ClientGaveUp", "r", p)
+			continue
+		}
+		io.Copy(io.Discard, resp.Body)
+		resp.Body.Close()
+		kind := fmt.Sprintf("status%d", resp.StatusCode)
+		if resp.StatusCode == 502 {
+			kind = "502"
+		}
+		hx.Emit("ClientRecv", "r", p, "kind", kind, "tok", p)
+	}
 }
